@@ -31,13 +31,14 @@ def related_checks(ID, patch):
 def main():
     rnd = sys.argv[1]; slots = int(sys.argv[2])
     harness = '/verif'
-    only = None; mode = 'related'; nometa = [False]
+    only = None; mode = 'related'; nometa = [False]; slotp = ['']
     a = sys.argv[3:]
     while a:
         if a[0] == '--harness': harness = a[1]; a = a[2:]
         elif a[0] == '--only': only = set(a[1].split(',')); a = a[2:]
         elif a[0] == '--checks': mode = a[1]; a = a[2:]
         elif a[0] == '--no-meta': nometa[0] = True; a = a[1:]
+        elif a[0] == '--slot-prefix': slotp[0] = a[1]; a = a[2:]
         else: a = a[1:]
     prefix = '/tmp/seed%s-' % ('' if rnd == '1' else rnd)
     tag = '' if rnd == '1' else rnd
@@ -57,7 +58,7 @@ def main():
     # one job at a time per worktree (A and B share it)
     wt_locks = {}
     def worker(k):
-        slot = '/tmp/vslot-%d' % k
+        slot = '/tmp/vslot-%s%d' % (slotp[0], k)
         while True:
             try: ID, V, WT, name = q.get_nowait()
             except queue.Empty: return
